@@ -118,8 +118,13 @@ class Ctx:
         cmd.append(module + ".tla")
         return cmd
 
+    def scaled(self, timeout):
+        """TLC time limits are generous in the thorough tier (large scopes, possibly a loaded machine)."""
+        return timeout * (8 if self.tier == "thorough" else 2)
+
     def tlc(self, module, cfg=None, workers=1, extra=None, env=None, timeout=1800, outname=None, heap="6g", deque=False, expect_violation=False):
         """Run TLC in the scratch copy of the spec directory. Returns dict with output path and counters."""
+        timeout = self.scaled(timeout)
         cfg = cfg or (module + ".cfg")
         cmd = self.tlc_cmd(module, cfg, workers, extra, heap, deque=deque)
         outpath = os.path.join(self.work, outname or ("tlc_%s_%d.out" % (module, len(self.tlc_runs))))
@@ -165,6 +170,7 @@ class Ctx:
         return dict(generated=generated, distinct=distinct, fatal=fatal, violated=violated)
 
     def tlc_parallel(self, jobs, timeout=1800):
+        timeout = self.scaled(timeout)
         """jobs: list of (module, cfg, env, outname). Runs them concurrently (one worker each)."""
         procs = []
         t_start = time.time()
